@@ -648,6 +648,27 @@ func pinned(r *core.Run) {
 			fmt.Sprintf("JSON Compare(5 as int64, 1e30) = %d, Compare(6.0, 1e30) = %d, Compare(5, 6.0) = %d: an integer compares greater than a double beyond the int64 range", xy, yz, xz),
 			fails, map[string]any{"cmp(int64 5, 1e30)": xy, "cmp(6.0, 1e30)": yz, "cmp(int64 5, 6.0)": xz})
 	}
+	// 2b. the same defect through SQL comparison operators and ORDER BY on a JSON column
+	{
+		ss := e.NewSess()
+		ok := true
+		for _, q := range []string{"CREATE TABLE pj (id INT PRIMARY KEY, v JSON)",
+			"INSERT INTO pj VALUES (1, '1e300'), (2, '9007199254740993'), (3, '9223372036854775808')"} {
+			if ss.Exec(q).Failed() {
+				ok = false
+			}
+		}
+		if ok {
+			res := ss.Exec("SELECT x.v < y.v FROM pj x, pj y WHERE x.id = 1 AND y.id = 2")
+			got := "?"
+			if !res.Failed() && len(res.Rows) == 1 {
+				got = core.Canon(res.Rows[0][0])
+			}
+			what := fmt.Sprintf("JSON column: (1e300 < 9007199254740993) evaluates to %s", got)
+			r.Pinned("sql-transitivity:json:integer-vs-double-beyond-int64", what, got == "1", got)
+			r.Pinned("order-by-disagrees-with-operators:json:integer-vs-double-beyond-int64", what+" (ORDER BY sorts with the same intransitive comparison)", got == "1", got)
+		}
+	}
 	// 3. SET with '' as a member
 	{
 		st := types.MustCreateSetType([]string{"", "a", "b"}, sql.Collation_utf8mb4_0900_bin)
